@@ -152,46 +152,50 @@ pub fn builtin_filter_map(
 
 #[builtin]
 pub fn builtin_foldl(
-	func: NativeFn!((Val, Either![Val, char]) -> Val),
+	func: NativeFn!((Thunk<Val>, Thunk<Val>) -> Val),
 	arr: Either![ArrValue, IStr],
-	init: Val,
+	init: Thunk<Val>,
 ) -> Result<Val> {
+	// `aux(func, arr, func(running, arr[idx]), idx + 1) tailstrict`: the element, and `init` in the
+	// first call, reach the function unevaluated; every intermediate result is evaluated before
+	// the next call.
 	let mut acc = init;
 	match arr {
 		Either2::A(arr) => {
-			for i in arr.iter() {
-				acc = func.call(acc, Either2::A(i?))?;
+			for i in arr.iter_lazy() {
+				acc = Thunk::evaluated(func.call(acc, i)?);
 			}
 		}
 		Either2::B(arr) => {
 			for c in arr.chars() {
-				acc = func.call(acc, Either2::B(c))?;
+				acc = Thunk::evaluated(func.call(acc, Thunk::evaluated(Val::string(c)))?);
 			}
 		}
 	}
-	Ok(acc)
+	acc.evaluate()
 }
 
 #[builtin]
 pub fn builtin_foldr(
-	func: NativeFn!((Either![Val, char], Val) -> Val),
+	func: NativeFn!((Thunk<Val>, Thunk<Val>) -> Val),
 	arr: Either![ArrValue, IStr],
-	init: Val,
+	init: Thunk<Val>,
 ) -> Result<Val> {
+	// Same as foldl, from the last element to the first
 	let mut acc = init;
 	match arr {
 		Either2::A(arr) => {
-			for i in arr.iter().rev() {
-				acc = func.call(Either2::A(i?), acc)?;
+			for i in arr.iter_lazy().rev() {
+				acc = Thunk::evaluated(func.call(i, acc)?);
 			}
 		}
 		Either2::B(arr) => {
 			for c in arr.chars().rev() {
-				acc = func.call(Either2::B(c), acc)?;
+				acc = Thunk::evaluated(func.call(Thunk::evaluated(Val::string(c)), acc)?);
 			}
 		}
 	}
-	Ok(acc)
+	acc.evaluate()
 }
 
 #[builtin]
